@@ -304,10 +304,18 @@ func symRow(uuid string, cols []int) *rrow {
 func (r *rrow) wireRow() ovsdb.Row {
 	row := ovsdb.Row{"name": r.name, "num": r.num, "ratio": r.ratio, "flag": r.flag, "mode": "a", "imm": r.imm}
 	row["tag"] = strSetOvs(tagSet(r.tag))
-	row["labels"] = strSetOvs(r.labels)
-	row["conf"] = confOvs(r.conf)
+	// an empty collection is either written as such or left out of the insert (the stored model then holds nil)
+	if len(r.labels) > 0 || !omitEmpty {
+		row["labels"] = strSetOvs(r.labels)
+	}
+	if len(r.conf) > 0 || !omitEmpty {
+		row["conf"] = confOvs(r.conf)
+	}
 	return row
 }
+
+// omitEmpty: seeding leaves empty collections out of the inserted rows.
+var omitEmpty bool
 
 func (r *rrow) clone() *rrow {
 	c := *r
@@ -553,119 +561,126 @@ func symOp(kind int, s *state, cols []int, maxConds int, dbm model.DatabaseModel
 			}
 		}
 		return ovsdb.Operation{Op: ovsdb.OperationUpdate, Table: "Root", Where: w.wire(), Row: row}, countIs(len(sel))
-	case 3: // mutate
+	case 3, 8: // mutate (8: two mutations in one operation, possibly of the same column)
 		w := symWhere(maxConds, wcols)
 		sel := s.selectRows(w)
-		col := cols[rt.Choose(len(cols))]
-		var m ovsdb.Mutation
-		switch col {
-		case 1:
-			k := rt.Choose(intMutMax)
-			v := rt.Int()
-			if k >= 2 {
-				// multiply / divide / modulo by a constant from a small menu (64-bit symbolic x symbolic
-				// multiplication and division are out of the solvers' reach); the current value stays symbolic
-				v = [...]int{-1, 2, 3, 10}[rt.Choose(4)]
-			}
-			m = ovsdb.Mutation{Column: "num", Mutator: intMutators[k], Value: v}
-			for _, r := range sel {
-				switch k {
-				case 0:
+		one := func() ovsdb.Mutation {
+			col := cols[rt.Choose(len(cols))]
+			var m ovsdb.Mutation
+			switch col {
+			case 1:
+				k := rt.Choose(intMutMax)
+				v := rt.Int()
+				if k >= 2 {
+					// multiply / divide / modulo by a constant from a small menu (64-bit symbolic x symbolic
+					// multiplication and division are out of the solvers' reach); the current value stays symbolic
+					v = [...]int{-1, 2, 3, 10}[rt.Choose(4)]
+				}
+				m = ovsdb.Mutation{Column: "num", Mutator: intMutators[k], Value: v}
+				for _, r := range sel {
+					switch k {
+					case 0:
+						r.num += v
+					case 1:
+						r.num -= v
+					case 2:
+						r.num *= v
+					case 3:
+						r.num /= v
+					case 4:
+						r.num %= v
+					}
+				}
+			case 2:
+				k := rt.Choose(realMutMax)
+				v := rt.Float64()
+				if k >= 2 {
+					v = [...]float64{-1, 2, 0.5, 10}[rt.Choose(4)]
+				}
+				m = ovsdb.Mutation{Column: "ratio", Mutator: intMutators[k], Value: v}
+				for _, r := range sel {
+					switch k {
+					case 0:
+						r.ratio += v
+					case 1:
+						r.ratio -= v
+					case 2:
+						r.ratio *= v
+					case 3:
+						r.ratio /= v
+					}
+					// results that overflow to an infinity are outside the claim (as integer overflow is)
+					rt.Assume(r.ratio <= 1.7976931348623157e308 && r.ratio >= -1.7976931348623157e308)
+				}
+			case 5:
+				x := rt.String()
+				if rt.Choose(2) == 0 {
+					m = ovsdb.Mutation{Column: "labels", Mutator: ovsdb.MutateOperationInsert, Value: strSetOvs([]string{x})}
+					for _, r := range sel {
+						if !inS(x, r.labels) {
+							r.labels = append(append([]string(nil), r.labels...), x)
+						}
+					}
+				} else {
+					m = ovsdb.Mutation{Column: "labels", Mutator: ovsdb.MutateOperationDelete, Value: strSetOvs([]string{x})}
+					for _, r := range sel {
+						var keep []string
+						for _, y := range r.labels {
+							if y != x {
+								keep = append(keep, y)
+							}
+						}
+						r.labels = keep
+					}
+				}
+			case 6:
+				k, v := rt.String(), rt.String()
+				switch rt.Choose(3) {
+				case 0: // insert pair: only keys not already present
+					m = ovsdb.Mutation{Column: "conf", Mutator: ovsdb.MutateOperationInsert, Value: confOvs([]kv{{k, v}})}
+					for _, r := range sel {
+						if _, ok := lookup(r.conf, k); !ok {
+							r.conf = append(append([]kv(nil), r.conf...), kv{k, v})
+						}
+					}
+				case 1: // delete by key
+					m = ovsdb.Mutation{Column: "conf", Mutator: ovsdb.MutateOperationDelete, Value: strSetOvs([]string{k})}
+					for _, r := range sel {
+						var keep []kv
+						for _, e := range r.conf {
+							if e.k != k {
+								keep = append(keep, e)
+							}
+						}
+						r.conf = keep
+					}
+				case 2: // delete by pair: only pairs with the same key and value
+					m = ovsdb.Mutation{Column: "conf", Mutator: ovsdb.MutateOperationDelete, Value: confOvs([]kv{{k, v}})}
+					for _, r := range sel {
+						var keep []kv
+						for _, e := range r.conf {
+							if !(e.k == k && e.v == v) {
+								keep = append(keep, e)
+							}
+						}
+						r.conf = keep
+					}
+				}
+			default:
+				// flag / tag: no mutators are defined; fall back to an integer mutation
+				v := rt.Int()
+				m = ovsdb.Mutation{Column: "num", Mutator: ovsdb.MutateOperationAdd, Value: v}
+				for _, r := range sel {
 					r.num += v
-				case 1:
-					r.num -= v
-				case 2:
-					r.num *= v
-				case 3:
-					r.num /= v
-				case 4:
-					r.num %= v
 				}
 			}
-		case 2:
-			k := rt.Choose(realMutMax)
-			v := rt.Float64()
-			if k >= 2 {
-				v = [...]float64{-1, 2, 0.5, 10}[rt.Choose(4)]
-			}
-			m = ovsdb.Mutation{Column: "ratio", Mutator: intMutators[k], Value: v}
-			for _, r := range sel {
-				switch k {
-				case 0:
-					r.ratio += v
-				case 1:
-					r.ratio -= v
-				case 2:
-					r.ratio *= v
-				case 3:
-					r.ratio /= v
-				}
-				// results that overflow to an infinity are outside the claim (as integer overflow is)
-				rt.Assume(r.ratio <= 1.7976931348623157e308 && r.ratio >= -1.7976931348623157e308)
-			}
-		case 5:
-			x := rt.String()
-			if rt.Choose(2) == 0 {
-				m = ovsdb.Mutation{Column: "labels", Mutator: ovsdb.MutateOperationInsert, Value: strSetOvs([]string{x})}
-				for _, r := range sel {
-					if !inS(x, r.labels) {
-						r.labels = append(append([]string(nil), r.labels...), x)
-					}
-				}
-			} else {
-				m = ovsdb.Mutation{Column: "labels", Mutator: ovsdb.MutateOperationDelete, Value: strSetOvs([]string{x})}
-				for _, r := range sel {
-					var keep []string
-					for _, y := range r.labels {
-						if y != x {
-							keep = append(keep, y)
-						}
-					}
-					r.labels = keep
-				}
-			}
-		case 6:
-			k, v := rt.String(), rt.String()
-			switch rt.Choose(3) {
-			case 0: // insert pair: only keys not already present
-				m = ovsdb.Mutation{Column: "conf", Mutator: ovsdb.MutateOperationInsert, Value: confOvs([]kv{{k, v}})}
-				for _, r := range sel {
-					if _, ok := lookup(r.conf, k); !ok {
-						r.conf = append(append([]kv(nil), r.conf...), kv{k, v})
-					}
-				}
-			case 1: // delete by key
-				m = ovsdb.Mutation{Column: "conf", Mutator: ovsdb.MutateOperationDelete, Value: strSetOvs([]string{k})}
-				for _, r := range sel {
-					var keep []kv
-					for _, e := range r.conf {
-						if e.k != k {
-							keep = append(keep, e)
-						}
-					}
-					r.conf = keep
-				}
-			case 2: // delete by pair: only pairs with the same key and value
-				m = ovsdb.Mutation{Column: "conf", Mutator: ovsdb.MutateOperationDelete, Value: confOvs([]kv{{k, v}})}
-				for _, r := range sel {
-					var keep []kv
-					for _, e := range r.conf {
-						if !(e.k == k && e.v == v) {
-							keep = append(keep, e)
-						}
-					}
-					r.conf = keep
-				}
-			}
-		default:
-			// flag / tag: no mutators are defined; fall back to an integer mutation
-			v := rt.Int()
-			m = ovsdb.Mutation{Column: "num", Mutator: ovsdb.MutateOperationAdd, Value: v}
-			for _, r := range sel {
-				r.num += v
-			}
+			return m
 		}
-		return ovsdb.Operation{Op: ovsdb.OperationMutate, Table: "Root", Where: w.wire(), Mutations: []ovsdb.Mutation{m}}, countIs(len(sel))
+		muts := []ovsdb.Mutation{one()}
+		if kind == 8 {
+			muts = append(muts, one())
+		}
+		return ovsdb.Operation{Op: ovsdb.OperationMutate, Table: "Root", Where: w.wire(), Mutations: muts}, countIs(len(sel))
 	case 4: // delete
 		w := symWhere(maxConds, wcols)
 		sel := s.selectRows(w)
@@ -888,6 +903,23 @@ func VerifC03MultiColMap() { program(1, 1, 0, []int{1, 6}, []int{7}) }
 
 // VerifC03ThenWhere: an update or mutation of the integer column followed by an operation whose where-clause is
 // on that column: later operations observe the effects of earlier ones.
+// VerifC03TwoMutations: one mutate operation carrying two mutations, of the same column or of two columns.
+func VerifC03TwoMutSet() {
+	forcedKinds = []int{8}
+	omitEmpty = rt.Choose(2) == 1
+	program(1, 1, 0, []int{5}, []int{8})
+}
+func VerifC03TwoMutMap() {
+	forcedKinds = []int{8}
+	omitEmpty = rt.Choose(2) == 1
+	program(1, 1, 0, []int{6}, []int{8})
+}
+func VerifC03TwoMutMix() {
+	forcedKinds = []int{8}
+	omitEmpty = rt.Choose(2) == 1
+	program(1, 1, 0, []int{1, 5, 6}, []int{8})
+}
+
 func VerifC03ThenWhere() {
 	forcedKinds = []int{2 + rt.Choose(2), 1}
 	program(1, 2, 1, []int{1}, []int{1, 2, 3, 4})
